@@ -56,9 +56,30 @@ def query_mix(ev, N, m, lo, up, tag):
             if not np.array_equal(y, ref):
                 msgs.append(f"{tag}: GetImage({x}) asked the {rep}. time returns {y.tolist()}, the {name} cell is {ref.tolist()}")
                 break
+    lo_f, up_f = np.asarray(lo, dtype=float), np.asarray(up, dtype=float)
+    if N >= 2 and np.array_equal(lo_f, -up_f):
+        # a box symmetric about the origin: a coordinate given as -0.0 is the same point as +0.0
+        for ax in range(N):
+            base = (lo_f + up_f) / 2 + (up_f - lo_f) * 0.23
+            base[ax] = 0.0
+            neg = base.copy()
+            neg[ax] = -0.0
+            a_, b_ = ev.GetInverseImage(base), ev.GetInverseImage(neg)
+            if a_ != b_:
+                msgs.append(f"{tag}: GetInverseImage gives {a_!r} for {base.tolist()} and {b_!r} for the same point written with "
+                            f"-0.0 on axis {ax}")
+                break
     for i in sorted({0, 1, n // 3, n // 2, n - 2, n - 1}):
         x = (i + 0.3) / n
         y = ev.GetImage(x)
+        keep = y.copy()
+        q = lo_f + (up_f - lo_f) * 0.6180339
+        ev.GetInverseImage(np.array(q))
+        ev.GetPreimages(np.array(q))
+        if not np.array_equal(y, keep):
+            msgs.append(f"{tag}: the array returned by GetImage({x!r}) was changed by a later inverse query "
+                        f"({keep.tolist()} -> {y.tolist()})")
+            break
         other = ev.GetImage(((i + n // 2) % n + 0.5) / n)
         ev.GetInverseImage(other)
         y2 = ev.GetImage(x)
@@ -80,7 +101,8 @@ def query_mix(ev, N, m, lo, up, tag):
     return msgs
 
 
-VIA_PAIRS = [(v, b) for v in ("B0", "B1", "B2", "B3") for b in ("B0", "B1", "B2", "B3") if v != b]
+VIA_PAIRS = [(v, b) for v in ("B0", "B1", "B2", "B3") for b in ("B0", "B1", "B2", "B3") if v != b] + \
+            [("Z", b) for b in ("B1", "B2", "D")]      # built from Python ints, then re-configured with fractional bounds
 
 
 def x_of_prefix(N, p):
